@@ -64,6 +64,6 @@ Accepted ==
   JsonSerialize(IOEnv.VOUT,
      [lines |-> TraceLen,
       viol |-> IF reached = TraceLen + 1 THEN <<>>
-               ELSE <<[tag |-> IF TraceLog[reached].ev = "Gate" THEN "C12.stuck" ELSE "C12.order", line |-> reached, kf |-> "new",
+               ELSE <<[tag |-> IF TraceLog[reached].ev = "Gate" \/ (TraceLog[reached].ev = "Inv" /\ TraceLog[reached].res = "stuck") THEN "C12.stuck" ELSE "C12.order", line |-> reached, kf |-> "new",
                        info |-> <<"longest linearizable prefix ends before line", reached, TraceLog[reached]>>]>>])
 ===============================================================================
